@@ -34,3 +34,88 @@ def r_surface(F, cfg):
     R.metric("frozen_items", n)
     R.metric("current_items", len(cur))
     return R
+
+
+def current_bounds(F):
+    """Trait bounds a downstream user has to satisfy, per exported item:
+       adt:<path>                      bounds on the type definition
+       impl:<trait>:<self type>        bounds of that trait impl (impls of exported traits for exported types)
+       inherent:<self type>:<methods>  bounds of an inherent impl block with public methods
+       fn:<path>                       bounds of exported free functions / methods (incl. their impl's)
+       supers:<trait>                  supertraits of an exported trait
+    Sized is implicit and ignored."""
+    exported_adts = {it["def"] for it in F.surface if it["kind"] in ("Struct", "Enum", "Union") and it.get("local")}
+    exported_traits = {it["def"] for it in F.surface if it["kind"] == "Trait" and it.get("local")}
+    out = {}
+
+    def norm(bs):
+        return sorted({"%s: %s" % (a, b_) for a, b_ in bs if not b_.endswith("marker::Sized") and not b_.endswith("MetaSized")})
+    for a in F.adts.values():
+        if a["name"] in exported_adts:
+            out["adt:%s" % a["name"]] = norm(a.get("bounds", []))
+    for imp in F.impls:
+        adt = F.impl_self_adt(imp)
+        if adt not in exported_adts:
+            continue
+        st = F.ts(imp["self_ty"])
+        if "trait" in imp:
+            tr = imp["trait"]
+            if tr in exported_traits or tr.startswith("std::") or tr.startswith("core::"):
+                if imp.get("m", "").startswith("X:"):
+                    continue  # derives: covered by the witness' derive obligations
+                out["impl:%s:%s" % (tr, st)] = norm(imp.get("bounds", []))
+        else:
+            pubs = sorted(it["name"] for it in imp["items"] if it.get("pub"))
+            if pubs:
+                out["inherent:%s:%s" % (st, ",".join(pubs))] = norm(imp.get("bounds", []))
+    for tn in exported_traits:
+        tr = F.traits.get(tn)
+        if tr:
+            out["supers:%s" % tn] = sorted(x for x in tr["supers"] if not x.endswith("Sized"))
+    return out
+
+
+def r_apibounds(F, cfg):
+    R = Result("R-APIBOUNDS", "no bound of the 6.4.1 public surface is tightened (type definitions, trait impls, inherent impl blocks, supertraits)")
+    p = os.path.join(cfg["here"], "witness", "api_bounds.json")
+    frozen = json.load(open(p))["items"]
+    cur = current_bounds(F)
+    n = 0
+    for key, fb in sorted(frozen.items()):
+        n += 1
+        if key not in cur:
+            # an inherent block may have been merged/split: look for each of its methods elsewhere
+            if key.startswith("inherent:"):
+                _, st, methods = key.split(":", 2) if key.count(":") >= 2 else (None, None, "")
+                # find any current inherent block of the same type that offers these methods
+                found = [k for k in cur if k.startswith("inherent:") and k.split(":")[1:-1] == key.split(":")[1:-1]]
+                have = set()
+                for k in found:
+                    have |= set(k.rsplit(":", 1)[1].split(","))
+                miss = [m for m in key.rsplit(":", 1)[1].split(",") if m not in have]
+                if not miss:
+                    extra = set()
+                    for k in found:
+                        extra |= set(cur[k])
+                    new = sorted(extra - set(fb))
+                    if new:
+                        R.violation("apibounds:tightened:%s" % key, "src/lib.rs", "inherent methods of %s now require %s" % (key.split(":")[1], new))
+                    else:
+                        R.ok(None, nontrivial=True)
+                    continue
+            R.violation("apibounds:missing:%s" % key, "src/lib.rs", "public impl/definition %s of 6.4.1 no longer exists" % key)
+            continue
+        cb = cur[key]
+        if key.startswith("supers:"):
+            if sorted(cb) != sorted(fb):
+                R.violation("apibounds:supers:%s" % key, "src/lib.rs", "supertraits of %s changed: %s -> %s" % (key[7:], fb, cb))
+            else:
+                R.ok({"item": key, "supertraits": fb}, nontrivial=True)
+            continue
+        new = sorted(set(cb) - set(fb))
+        if new:
+            R.violation("apibounds:tightened:%s" % key, "src/lib.rs", "%s now additionally requires %s (6.4.1 required %s)" % (key, new, fb))
+        else:
+            R.ok({"item": key, "bounds": cb} if n % 40 == 1 else None, nontrivial=True)
+    R.metric("frozen_bound_items", n)
+    return R
